@@ -114,6 +114,8 @@ type Interp struct {
 	ghost      map[string]value
 	callDepth  int
 	pathDone   chan pathResult
+	varMemo    map[int][]int
+	noSlice    bool
 	loopSpecs  map[string]*loopSpec
 	loopPost   map[string]value
 	regexps    map[*value]string
@@ -147,6 +149,7 @@ type HarnessRun struct {
 	UnknownBranches int
 	Samples      []string
 	IfConverted  int
+	Sliced       int
 }
 
 func newHarnessRun(name string) *HarnessRun {
@@ -204,10 +207,27 @@ func (in *Interp) backtrack() bool {
 }
 
 func (in *Interp) check(extra ...*Term) (Result, map[int]uint64) {
-	as := make([]*Term, 0, len(in.pc)+len(extra))
-	as = append(as, in.pc...)
-	as = append(as, extra...)
-	r, vals, msg := in.solver.Check(as, in.vars)
+	var as []*Term
+	want := in.vars
+	sliced := false
+	if in.model != nil && len(extra) > 0 && !in.noSlice {
+		rel, vars := in.sliceFor(extra)
+		as = append(as, rel...)
+		as = append(as, extra...)
+		want = nil
+		for _, v := range in.vars {
+			if vars[v.id] {
+				want = append(want, v)
+			}
+		}
+		sliced = true
+		in.h.Sliced++
+	} else {
+		as = make([]*Term, 0, len(in.pc)+len(extra))
+		as = append(as, in.pc...)
+		as = append(as, extra...)
+	}
+	r, vals, msg := in.solver.Check(as, want)
 	if r == SolverError {
 		in.h.Inconclusive = append(in.h.Inconclusive, "solver error: "+msg)
 		// restart solver
@@ -218,6 +238,16 @@ func (in *Interp) check(extra ...*Term) (Result, map[int]uint64) {
 			in.solver = s
 		}
 		return Unknown, nil
+	}
+	if r == Sat && sliced {
+		if vals == nil {
+			vals = map[int]uint64{}
+		}
+		for _, v := range in.vars {
+			if _, ok := vals[v.id]; !ok {
+				vals[v.id] = in.model[v.name]
+			}
+		}
 	}
 	return r, vals
 }
